@@ -660,3 +660,4 @@ Proof.
 Qed.
 
 Local Close Scope Z_scope.
+Ltac Zify.zify_post_hook ::= Z.to_euclidean_division_equations.
